@@ -3,6 +3,8 @@ have been observed for a 'held' verdict, and how the evidence is written."""
 from vdriver import Job, NCPU
 
 ENGINES = {
+    'h_ring': dict(tulz=['none'], cflags=['-fno-access-control'], setup_variants=['asan'],
+                   kind='lock-step bounded-deque model + lifetime registry over seeded RingBuffer histories, ASan/UBSan/LSan'),
     'h_rwlock': dict(tulz=['resource'], spy=True, schedule_sensitive=True, setup_variants=['mon', 'mon-ndebug']),
 }
 
@@ -139,3 +141,63 @@ for _p, _txt, _tech in (
 ):
     SPECS[_p]['manifest'] = dict(engine='h_rwlock', text=_txt, note=RW_NOTE, technique=_tech)
 ENGINES['h_rwlock']['kind'] = 'stress + scripted-pattern harness for rwp::Resource with pthread interposer (park table, delay injection, quiescence oracle)'
+
+
+# ----------------------------------------------------------------------------- containers (C04 C09 C14)
+
+def model_jobs(engine, prop, cases, variants_thorough=('asan', 'asan-O0', 'asan-clang'), args=(), vg_cases=0, parts=NCPU):
+    def mk(tier, seed):
+        q = tier == 'quick'
+        jobs = []
+        variants = ('asan',) if q else variants_thorough
+        for vi, variant in enumerate(variants):
+            n = cases[0] if q else (cases[1] if vi == 0 else max(cases[0], cases[1] // 10))
+            for frm, cnt in split(n, parts):
+                jobs.append(Job(engine, variant, pseed(seed, prop, vi), frm, cnt, list(args), label=variant))
+        if not q and vg_cases:
+            for frm, cnt in split(vg_cases, parts):
+                jobs.append(Job(engine, 'plain', pseed(seed, prop, 9), frm, cnt, list(args), label='valgrind', valgrind=True, timeout=3000))
+        return jobs
+    return mk
+
+
+def ring_evidence(rule):
+    def f(agg, samples, distinct, tier):
+        return cov(agg.get('histories', 0), distinct, rule, samples,
+                   observed=pick(agg, 'histories', 'ops', 'nontrivialCases', 'stateComparisons', 'trackedCtors', 'trackedDtors', 'trackedMoves', 'shellDtors'),
+                   operations=agg.get('opCount', {}), operations_on_wrapped_layout=agg.get('opOnWrapped', {}),
+                   operations_on_full_buffer=agg.get('opOnFull', {}))
+    return f
+
+
+SAN_NOTE = ('Decides the histories actually generated. Trusted: AddressSanitizer/UBSan/LeakSanitizer (red zones miss far and intra-object '
+            'overflows), the reference model, and the generator respecting the documented preconditions.')
+
+SPECS['C04'] = dict(
+    title='RingBuffer behaves as a bounded deque',
+    jobs=model_jobs('h_ring', 'C04', (24000, 2000000), vg_cases=4000),
+    require={'any': {'histories': 5000, 'nontrivialCases': 2000}},
+    evidence=ring_evidence('case = seeded history (1-200 operations, up to 4 live buffers, capacity 1-17, both overwrite modes, element types int / 24-byte POD / '
+                           'lifetime-tracked class / std::string without resize) run in lock-step with a std::deque model; after every operation size, capacity, '
+                           'empty/full, every element through const and mutable operator[], front/back, both iterations, iterator arithmetic, returned references '
+                           'and popped values are compared. non-trivial = some operation was applied to a wrapped or full layout; distinct = distinct operation histories'),
+    assumptions=['generator respects preconditions: no pop/front/back on empty, no push on a full non-overwriting buffer, index < size, resize(n>=1), moved-from buffers only destroyed or assigned to',
+                 'std::string is not bitwise relocatable in libstdc++: string histories contain no resize'],
+    manifest=dict(engine='h_ring', text='Lock-step comparison of the real RingBuffer with an executable bounded-deque model after every operation of tens of thousands of seeded '
+                  'histories, under ASan+UBSan; layouts (head position, wrap-around, full) are measured so that "held" is stated with the layouts actually visited.',
+                  note=SAN_NOTE, technique='runtime monitoring: lock-step reference model (bounded deque) under ASan/UBSan'))
+
+SPECS['C09'] = dict(
+    title='RingBuffer element lifetimes',
+    jobs=model_jobs('h_ring', 'C09', (24000, 2000000), vg_cases=4000),
+    require={'any': {'histories': 5000, 'nontrivialCases': 2000, 'trackedDtors': 100000}},
+    evidence=ring_evidence('C04 histories over the lifetime-tracked element type (identity = serial number stored in the object, so memcpy/realloc relocation is '
+                           'invisible but the object a destructor ran on is known), biased towards copy-assignment onto used buffers and shrinking wrapped / offset '
+                           'buffers; after every operation: every element of every buffer is a live registered object with the model value, no object id occurs twice, '
+                           '#live values == sum of sizes (+ what a moved-from buffer may still own); at the end of a history #live == 0; ASan/LSan watch the raw storage. '
+                           'non-trivial = operation on a wrapped or full layout; distinct = distinct histories'),
+    assumptions=['moved-from shells left by pop may be destroyed once, overwritten or abandoned (RingBufferEfficiencyTest pins this)',
+                 'a moved-from buffer may keep the values it was swapped with until it is destroyed or assigned to'],
+    manifest=dict(engine='h_ring', text='Lifetime registry reconciled after every operation (which object each constructor, assignment and destructor ran on), plus ASan heap checks '
+                  'and LeakSanitizer, over seeded histories that concentrate on shrinking resize of wrapped buffers and copy assignment onto used buffers.',
+                  note=SAN_NOTE, technique='runtime monitoring: object-lifetime registry + ASan/LSan over model-generated histories'))
